@@ -74,7 +74,8 @@ var propertyConfigs = map[string]*propertyConfig{
 		Assumptions: []string{
 			"Engine B executes the go/ssa form of each method; the type switch on the writer/reader takes the buffer.Writer / buffer.Reader branch (the default branch wraps the stream in a bufio object and calls the same method)",
 			"io.Writer.Write, io.Reader.Read, io.ReadFull, bufio Peek/Discard/Flush/Available carry their documented behaviour as ASSUMED contracts (utils/buffer/zz_contracts_verif.go)",
-			"the generic containers structs.Vector / Matrix / Map (element loops) and the slice primitives of utils/buffer (buffer-refill loops) are ASSUMED to move exactly the announced size and (writers) to end with Flush; only Vector[uint64].ReadFrom is verified",
+			"the generic containers structs.Vector / Matrix / Map (element loops) are ASSUMED to move exactly the announced size and (writers) to end with Flush; only Vector[uint64].ReadFrom is verified",
+			"the slice primitives of utils/buffer (Read/WriteUint{8,16,32,64}Slice) are verified at count level with their decode / encode loops skipped (loopabs: stored arrays unknown afterwards, panics inside those loops not checked) and their refill recursion under a measure (decreases len(c)): every recursive call is on a strictly shorter slice",
 			"bsize(x), the abstract announced size at call sites, is an uninterpreted function of the contents of x (identity = access path + store version): BinarySize is assumed deterministic in the contents",
 			"the length of encoding/json output (MetaData writers, Parameters) is outside the reach of the contracts: the metadata WriteTo methods are assumed to write the announced size",
 			"NOT decided: byte-level faithfulness (that the bytes read back give an object EQUAL to the original), equality of MarshalBinary and WriteTo bytes, behaviour under truncation at every offset (only: no success is reported with fewer bytes than announced), Parameters / literal JSON forms",
